@@ -40,7 +40,9 @@ RULE = ("paths = every solution of Basic/Specialized tracers in Antarctic, Green
         "z = z_turn - s^2). Corner geometries come first: equal depths, |dz| < 1 m, vertical, identical end points, "
         "end point on a layer boundary, equal indices, grazing incidence, flat refracted rays. Signals on integer "
         "time grids (int64, int32, range) and interpolation steps 1.5 and 5 are ordinary inputs; steps <= 0 / NaN "
-        "must raise. The form without polarisation (no force_real, negative frequencies looked up) is run for every "
+        "must raise. USED path objects are re-aimed through their mutable attributes (to_point / from_point / theta0; propagate - "
+        "re-aim - propagate - back - propagate) and compared with identical never-used paths and with the new received "
+        "direction. The form without polarisation (no force_real, negative frequencies looked up) is run for every "
         "interpolation step and compared with the numpy recomputation using the |f|-symmetric factor and with the "
         "s-component of the polarised form")
 LEVEL_TEXT = ("theorems C03_* proved over R for every path integral, every pair of indices, every incidence angle, "
@@ -1187,6 +1189,9 @@ def check_path(run, case, idx, path, deep=False):
     # ---- histories on one path object, compared step by step with never-used objects and the recomputation
     if which in ("all", "propagate", "history"):
         check_history(run, case, idx, kind, fr, k2, fail)
+    # ---- a used path object re-aimed through its mutable attributes
+    if which in ("all", "propagate", "reaim") and kind in ("basic", "specialized", "uniform"):
+        check_reaim(run, case, idx, kind, fail)
 
 
 def attenuation_small_calls(path, f, chunk=97):
@@ -1542,6 +1547,107 @@ def verify_function_signal(path, ctx, t0, dt, n, src, pol, interp, extra, g, fre
         if ss._filters is sp._filters or any(a is b for a in ss._filters for b in sp._filters) \
                 or ss._filters is fs._filters or any(a is b for a in ss._filters for b in fs._filters):
             fail("aliasing", None, None, "propagated FunctionSignals share their filter lists", extra=extra)
+
+
+def fresh_like(path, kind, from_point, to_point, theta0=None, ice=None):
+    """a never-used path object of the same class with the given attributes (built through the class's own
+    constructor from a stand-in for the parent tracer)"""
+    import types
+    parent = types.SimpleNamespace(from_point=np.array(from_point, dtype=float), to_point=np.array(to_point, dtype=float),
+                                   ice=ice if ice is not None else path.ice, dz=getattr(path, "dz", 1))
+    th = float(path.theta0) if theta0 is None else float(theta0)
+    if kind == "uniform":
+        return type(path)(parent, th, path._reflections)
+    return type(path)(parent, th, path.direct)
+
+
+def check_reaim(run, case, idx, kind, fail):
+    """propagate - re-aim (to_point / from_point / theta0 assigned on the USED object) - propagate - re-aim back -
+    propagate: after every re-aim the basis must be perpendicular to the NEW received direction and all outputs must
+    equal those of an identical never-used path"""
+    rt, im, ps, li = mods()
+    g = np.random.default_rng(case.get("vseed", 12345) * 13 + idx + 5)
+    used, _ = make_paths(case)
+    if idx >= len(used):
+        return
+    path = used[idx]
+    a0 = np.array(path.from_point, dtype=float)
+    b0 = np.array(path.to_point, dtype=float)
+    th0 = float(path.theta0)
+    n = int(g.integers(8, 40))
+    dt = float(10 ** g.uniform(-10, -8.5))
+    times = dt * np.arange(n)
+    x = g.standard_normal(n)
+    pol = g.standard_normal(3)
+    interp = [None, 0.1][int(g.integers(0, 2))]
+    kw = {} if interp is None else {"attenuation_interpolation": interp}
+
+    def rotated(p, ang, dzv=0.0):
+        d = p - a0
+        c, sn = math.cos(ang), math.sin(ang)
+        return a0 + np.array([c * d[0] - sn * d[1], sn * d[0] + c * d[1], d[2] + dzv])
+    ang = float(g.uniform(0.3, 2.5)) * (1 if g.random() < 0.5 else -1)
+    shift = np.array([float(g.uniform(-80, 80)), float(g.uniform(-80, 80)), 0.0])
+    # (new from_point, new to_point, new theta0): a rotation about the source keeps it a true ray; moving the
+    # receiver in depth / the source sideways / changing theta0 gives another, still well-defined, path object
+    steps = [("to_point rotated", a0, rotated(b0, ang), th0),
+             ("back", a0, b0, th0),
+             ("to_point rotated and moved in depth", a0, rotated(b0, -ang, float(g.uniform(-15, 15))), th0),
+             ("from_point and to_point translated", a0 + shift, b0 + shift, th0),
+             ("back", a0, b0, th0)]
+    if kind in ("basic", "specialized") and not (float(path.rho) == 0.0):
+        steps.insert(3, ("theta0 changed", a0, rotated(b0, ang / 2), th0 * (1 + float(g.uniform(-0.02, 0.02)))))
+
+    def call(pth):
+        (ss, sp), (us, up1) = pth.propagate(ps.Signal(times.copy(), x.copy()), pol.copy(), **kw)
+        return (np.array(ss.times, dtype=float), np.array(ss.values, dtype=float), np.array(sp.values, dtype=float),
+                np.asarray(us, dtype=float), np.asarray(up1, dtype=float))
+    try:
+        first = call(path)
+    except Exception:      # noqa: BLE001 - the plain call is judged elsewhere
+        return
+    for k, (name, a, b, th) in enumerate(steps):
+        extra = {"reaim_step": k, "reaim": name, "N": n, "dt": dt, "interp": interp, "vseed": case.get("vseed", 12345)}
+        try:
+            if not np.array_equal(a, np.asarray(path.from_point, dtype=float)):
+                path.from_point = np.array(a, dtype=float)
+            path.to_point = np.array(b, dtype=float)
+            if kind != "uniform" or th != float(path.theta0):
+                path.theta0 = th
+            got = call(path)
+            ref = call(fresh_like(path, kind, a, b, th))
+        except Exception as e:      # noqa: BLE001
+            # a re-aimed object may describe no physical ray (e.g. arcsin out of range): both must then fail alike
+            try:
+                call(fresh_like(path, kind, a, b, th))
+                fail("reaim", repr(e)[:160], "same as a never-used path",
+                     "a re-aimed path object raises where an identical never-used path does not", extra=extra)
+            except Exception:      # noqa: BLE001
+                run.count("reaim_step_not_a_path")
+            continue
+        if not all(np.all(np.isfinite(q)) for q in ref):
+            run.count("reaim_step_not_a_path")
+            continue
+        run.count("reaim_steps_checked")
+        amp = float(np.max(np.abs(x))) * float(np.linalg.norm(pol)) * max(1.0, float(np.max(np.abs(ref[1]))) /
+                                                                       (float(np.max(np.abs(x))) or 1.0))
+        rd = np.asarray(path.received_direction, dtype=float)
+        gram = [float(got[3] @ got[3]), float(got[4] @ got[4]), float(got[3] @ got[4]), float(got[3] @ rd),
+                float(got[4] @ rd)]
+        if not np.allclose(gram, [1, 1, 0, 0, 0], atol=1e-9):
+            fail("reaim-basis", gram, [1, 1, 0, 0, 0],
+                 "after re-aiming a used path the returned vectors are not unit / orthogonal / perpendicular to the "
+                 "NEW received direction", extra=extra)
+        elif not (np.array_equal(got[0], ref[0]) and np.allclose(got[1], ref[1], rtol=0, atol=1e-12 * amp)
+                  and np.allclose(got[2], ref[2], rtol=0, atol=1e-12 * amp)
+                  and np.allclose(got[3], ref[3], rtol=0, atol=1e-13) and np.allclose(got[4], ref[4], rtol=0, atol=1e-13)):
+            d = max(float(np.max(np.abs(got[1] - ref[1]))), float(np.max(np.abs(got[2] - ref[2]))))
+            fail("reaim", d, 0.0, "a used path object re-aimed through its attributes (%s) propagates differently from "
+                 "an identical never-used path" % name, extra=extra)
+        if name == "back" and not (np.array_equal(got[0], first[0]) and np.allclose(got[1], first[1], rtol=0, atol=1e-12 * amp)
+                                   and np.allclose(got[2], first[2], rtol=0, atol=1e-12 * amp)):
+            fail("reaim", None, None, "re-aiming a path back to its original end points does not restore its first result",
+                 extra=extra)
 
 
 def check_history(run, case, idx, kind, fr, k2, fail):
